@@ -504,7 +504,10 @@ def mt_cov(cases):
 
 
 # ---- tiny programs under scripted, preemption-bounded schedules (C02 / C08) -------------------------------------------------
-def tiny_cases(prop, tier, seed, n_progs=None, variants=("rel-h", "dbg-h")):
+TINYX_ENVS = [{"MIMALLOC_ABANDONED_RECLAIM_ON_FREE": "1", "MIMALLOC_VISIT_ABANDONED": "1"}, {"MIMALLOC_VISIT_ABANDONED": "1"},
+              {"MIMALLOC_ABANDONED_RECLAIM_ON_FREE": "1", "MIMALLOC_VISIT_ABANDONED": "1", "MIMALLOC_DISALLOW_ARENA_ALLOC": "1"}, {"MIMALLOC_ABANDONED_RECLAIM_ON_FREE": "1"}]
+
+def tiny_cases(prop, tier, seed, n_progs=None, variants=("rel-h", "dbg-h"), scenario="tiny", envs=({},), max_scripts=None):
     """two stages: (1) run every tiny program without preemption to learn how many switch points each thread executes;
     (2) enumerate scripts: every single preemption of a freeing thread, every pair of preemptions of the same freeing thread at most 3 of
     its own points apart (the shape of ABA / lost-update windows) with every choice of the threads that run in the window, and samples of
@@ -512,20 +515,21 @@ def tiny_cases(prop, tier, seed, n_progs=None, variants=("rel-h", "dbg-h")):
     n_progs = n_progs if n_progs is not None else tier_n(tier, 24, 200)
     build.build_many([("drv_mt", v) for v in variants])
     rnd = random.Random(seed * 7919 + 13)
-    progs = [(rnd.randrange(1, 1 << 30), rnd.choice([3, 3, 4])) for _ in range(n_progs)]
-    def mk(v, prog, threads, script, label):
+    progs = [(rnd.randrange(1, 1 << 30), rnd.choice([3, 3, 4]), dict(envs[i % len(envs)])) for i in range(n_progs)]
+    def mk(v, prog, threads, script, label, env):
         exe = build.driver("drv_mt", v)
-        args = [exe, "--scenario", "tiny", "--prop", prop, "--variant", v, "--seed", 1, "--mode", "baton", "--policy", "script", "--prog", prog, "--threads", threads, "--script", script,
+        args = [exe, "--scenario", scenario, "--prop", prop, "--variant", v, "--seed", 1, "--mode", "baton", "--policy", "script", "--prog", prog, "--threads", threads, "--script", script,
                 "--debug", int(v.startswith("dbg"))]
-        return Case("%s-tiny-%s-p%d-t%d-%s" % (prop, v, prog, threads, label), args, env=san_env(v, prop, ""), timeout=60, crash_refutes=[prop],
-                    meta={"variant": v, "scenario": "tiny", "mode": "baton", "seed": prog, "script": script, "config": "tiny"})
-    base = [mk(variants[i % len(variants)], pg, th, "", "base") for i, (pg, th) in enumerate(progs)]
+        e = dict(env); e.update(san_env(v, prop, ""))
+        return Case("%s-%s-%s-p%d-t%d-%s" % (prop, scenario, v, prog, threads, label), args, env=e, timeout=60, crash_refutes=[prop],
+                    meta={"variant": v, "scenario": scenario, "mode": "baton", "seed": prog, "script": script, "config": envname(env) or scenario})
+    base = [mk(variants[i % len(variants)], pg, th, "", "base", en) for i, (pg, th, en) in enumerate(progs)]
     core.run_cases(base)
     cases = list(base)
     for i, c in enumerate(base):
         t = (c.result or {}).get("tiny")
         if not t: continue
-        pg, th = progs[i]; v = c.meta["variant"]
+        pg, th, en = progs[i]; v = c.meta["variant"]
         pts = t["points"]; nT = len(pts) - 1
         scripts = []
         for vic in range(1, nT + 1):
@@ -543,6 +547,13 @@ def tiny_cases(prop, tier, seed, n_progs=None, variants=("rel-h", "dbg-h")):
             k1 = rnd.choice(span); t1 = rnd.randrange(1, nT + 1)
             if rnd.random() < 0.5: scripts.append("0:%d:%d" % (k1, t1))
             else: scripts.append("0:%d:%d,0:%d:%d" % (k1, t1, k1 + rnd.randrange(1, 4), rnd.randrange(1, nT + 1)))
+        if scenario == "tinyx":
+            # nested: victim a is stopped at each of its points in favour of b, and b in turn is stopped somewhere (3 samples) in favour of a -- both are then inside their operations at the same time
+            for a in range(1, nT + 1):
+                for k1 in range(1, pts[a] + 1):
+                    for b in [x for x in range(1, nT + 1) if x != a]:
+                        for _ in range(3):
+                            scripts.append("%d:%d:%d,%d:%d:%d" % (a, k1, b, b, rnd.randrange(1, max(1, pts[b]) + 1), a))
         # preemptions of two different victims, and spurious weak-CAS failures combined with a preemption
         for _ in range(tier_n(tier, 40, 400)):
             a, b = rnd.sample(range(1, nT + 1), 2)
@@ -550,12 +561,13 @@ def tiny_cases(prop, tier, seed, n_progs=None, variants=("rel-h", "dbg-h")):
         for _ in range(tier_n(tier, 30, 300)):
             a = rnd.randrange(1, nT + 1); ncas = max(1, t["cas"][a])
             scripts.append("%d:%d:s,%d:%d:%d" % (a, rnd.randrange(1, ncas + 1), a, rnd.randrange(1, pts[a] + 2), rnd.choice([x for x in range(0, nT + 1) if x != a])))
+        if max_scripts is not None and len(scripts) > max_scripts: scripts = rnd.sample(scripts, max_scripts)
         for j, sc in enumerate(scripts):
-            cases.append(mk(v if j % 3 else variants[(variants.index(v) + 1) % len(variants)], pg, th, sc, "s%d" % j))
+            cases.append(mk(v if j % 3 else variants[(variants.index(v) + 1) % len(variants)], pg, th, sc, "s%d" % j, en))
     return cases
 
 def tiny_cov(cases):
-    tc = [c for c in cases if c.meta.get("scenario") == "tiny"]
+    tc = [c for c in cases if c.meta.get("scenario") in ("tiny", "tinyx")]
     ok = [c for c in tc if c.result and "tiny" in c.result]
     return {"tiny_program_executions": len(tc), "tiny_programs": len(set(c.meta["seed"] for c in tc)), "scripted_preemptions_fired": sum(c.result["tiny"].get("script_fired", 0) for c in ok),
             "tiny_distinct_schedules": len(set((c.meta["seed"], c.result["sched"]["hash"]) for c in ok)),
@@ -593,6 +605,10 @@ def c02(tier, seed):
     ex = mt_cases(prop, "exit", tier, seed, n_baton=tier_n(tier, 400, 10000), n_par=tier_n(tier, 4, 40), n_tsan=tier_n(tier, 2, 20), start=700000)
     for c in core.run_cases(ex): v.add(c)
     cases += ex
+    tx = tiny_cases(prop, tier, seed + 5, n_progs=tier_n(tier, 6, 60), scenario="tinyx", envs=TINYX_ENVS, max_scripts=tier_n(tier, 3000, 12000))      # see C09
+    for c in core.run_cases([c for c in tx if c.exit is None]): pass
+    for c in tx: v.add(c)
+    cases += tx; tiny = tiny + tx
     return mt_finish(prop, tier, seed, cases, v, t0,
                      "tiny programs: one owner allocates 2-9 blocks of one size class (64 B .. 16 KB, so that pages are full or nearly full), gives 1-2 of them to each of 2-3 freeing threads and then does "
                      "1-4 operations of its own (malloc / malloc+free / free / collect) while they free; afterwards it allocates the pages full again and verifies every block. Their schedules are enumerated, "
@@ -633,12 +649,21 @@ def c09(tier, seed):
     cases = mt_cases(prop, "exit", tier, seed)
     v = Verdict(prop)
     for c in core.run_cases(cases): v.add(c)
+    # tiny programs with enumerated preemptions: a thread hands its blocks to 2-3 others and terminates; they free them (each trying to adopt the abandoned segment under
+    # reclaim-on-free), allocate again and verify
+    tiny = tiny_cases(prop, tier, seed, n_progs=tier_n(tier, 8, 80), scenario="tinyx", envs=TINYX_ENVS, max_scripts=tier_n(tier, 3000, 12000))
+    for c in core.run_cases([c for c in tiny if c.exit is None]): pass
+    for c in tiny: v.add(c)
+    cases += tiny
     return mt_finish(prop, tier, seed, cases, v, t0,
+                     "tiny exit programs (script policy, see C02): one thread allocates a few blocks of one size class, hands them to 2-3 threads and terminates (mi_thread_done as a scheduled step); the others free "
+                     "them -- with reclaim-on-free each free tries to adopt the abandoned segment --, allocate again, verify and free; enumerated: every single preemption of a freeing thread and every pair within 3 "
+                     "of its switch points (capped by sampling), samples of preemptions of the terminating thread; at the end the quiescence checks below. Other cases: "
                      "a case = T slots, each running several generations of threads that allocate, exchange blocks, then terminate (pthread exit with the destructor running concurrently, or mi_thread_done "
                      "under the scheduler) while their blocks are still held, read and freed by others and successors adopt what was abandoned; options: reclaim-on-free, forced abandonment, arena vs OS "
                      "segments, reclaim percentage; at the end everything is freed, the survivors force-collect and mi_abandoned_visit_blocks must report nothing / no OS segment may stay mapped; "
                      "non-trivial = >=2 thread exits with >=1 block handed over; distinct = schedule hash",
-                     lambda r, c: r.get("mt", {}).get("thread_exits", 0) >= 2 and r.get("mt", {}).get("sends", 0) >= 1)
+                     lambda r, c: (r.get("mt", {}).get("thread_exits", 0) >= 2 and r.get("mt", {}).get("sends", 0) >= 1) or (c.meta.get("scenario") == "tinyx" and r.get("mt", {}).get("thread_exits", 0) >= 1), tiny_cov(tiny))
 
 @check("C14")
 def c14(tier, seed):
